@@ -664,6 +664,44 @@ func runC20(c *Ctx) {
 		c.Check(ok, "failed service.Start is followed by service.Shutdown", pos, "Shutdown on the err!=nil side", "components started before the failure are never shut down")
 	}
 
+	// ---------- R6 providers
+	c.Rule("R6", "ORD", "shutting the configuration down reaches every provider: the collector's provider delegates to the resolver's Shutdown, whose provider loop runs on every path (no earlier return), exits only at its range condition and aggregates errors", 2)
+	{
+		cpk := p.ByPath[pkgConfmap]
+		var rsd *ssa.Function
+		if cpk != nil {
+			for _, fn := range p.AllSrcFuncs(cpk) {
+				if fn.Parent() == nil && fn.Name() == "Shutdown" && recvNamedOfFn(fn) != nil && recvNamedOfFn(fn).Obj().Name() == "Resolver" {
+					rsd = fn
+				}
+			}
+		}
+		if rsd == nil {
+			c.Anchor("confmap.Resolver.Shutdown")
+		} else {
+			ps := calls(rsd, func(ci ssa.CallInstruction) bool { return ci.Common().IsInvoke() && ci.Common().Method.Name() == "Shutdown" })
+			ok := len(ps) == 1 && len(returnsOf(rsd)) == 1 && loopHasOnlyConditionExit(ps[0].Block())
+			agg := false
+			if ok {
+				if backSlice(resultsOf(returnsOf(rsd)[0])[0])[ps[0].(ssa.Value)] {
+					agg = true
+				}
+			}
+			pos := p.Pos(rsd.Pos())
+			c.Check(ok && agg, "every configuration provider is shut down", pos, "single return after a full loop over the providers; errors aggregated", fmt.Sprintf("provider Shutdown sites=%d, single return and full loop=%v, errors aggregated=%v: an error while closing retrieved values (or in one provider) leaves the remaining providers running", len(ps), ok, agg))
+		}
+		// otelcol.ConfigProvider.Shutdown delegates
+		okDel := false
+		for _, fn := range funcs {
+			if fn.Parent() == nil && fn.Name() == "Shutdown" && recvNamedOfFn(fn) != nil && recvNamedOfFn(fn).Obj().Name() == "ConfigProvider" {
+				if rsd != nil && len(callsTo(fn, funcObj(rsd))) == 1 && len(guardsOf(callsTo(fn, funcObj(rsd))[0].Block())) == 0 {
+					okDel = true
+				}
+			}
+		}
+		c.Check(okDel, "the collector's config provider delegates Shutdown to the resolver", "-", "unconditional delegation", "ConfigProvider.Shutdown does not (always) shut the resolver down")
+	}
+
 	// ---------- R5
 	c.Rule("R5", "WHO", "the shutdown channel is closed at exactly one site, under the state ∈ {Running, Starting} test, in a function with a deferred recover()", 1)
 	{
